@@ -43,6 +43,16 @@ def parse_deductive(rep, funs=None):
                            'of their string-theory contracts (contracts/visitor.py)')
 
 
+def astvars_deductive(rep):
+    """the `variables` properties of the AST classes against spec/astvars.smt2 (every variable of a clause is declared: C01, C06)"""
+    from ..pyvc.theory_clause import AstVarsTheory
+    from ..pyvc import run as pyrun
+    import sys
+    sys.path.insert(0, fw.VERIF)
+    names = sorted(pyrun.load_contracts('ast_vars'))
+    fw.deductive(rep, names, ['ast_vars'], ['control.smt2', 'astvars.smt2'], theory=AstVarsTheory)
+
+
 CLAUSE_TARGETS = ['yp_generator.YPPrologCompiler.' + f for f in (
     'find_clause_head_variable_arguments', 'compile_clause_head_variable_arguments', 'compile_arg_list_unification',
     'compile_unification', 'compile_expression', 'compile_list', 'compile_variable_declaration', 'get_argument_variable',
